@@ -91,7 +91,7 @@ PROPERTIES.update({
 })
 
 CRYPTO_ASM = "that no party without the NTLM session keys can produce a token which gss_unwrapex accepts is a cryptographic assumption (64-bit truncated HMAC-MD5 under RC4): outside any contract; the checks prove the acceptance condition, not unforgeability"
-DER_ASM = "ASN.1 DER/BER through the yasna crate and src/nla/asn1.rs is external: DER encode/decode are uninterpreted functions (prelude/asn1_cssp.rs parse_der_into / to_der: a parse may fail on any input, on success only the SHAPE of the structure is known and a SEQUENCE OF may be empty); the seven TSRequest builders/readers of cssp.rs are verified above that in unit csspder"
+DER_ASM = "ASN.1 DER/BER through the yasna crate and src/nla/asn1.rs is external: DER encode/decode are uninterpreted functions (prelude/asn1_cssp.rs parse_der_into / to_der: a parse may fail on any input, on success only the SHAPE of the structure is known and a SEQUENCE OF may be empty); the seven TSRequest builders/readers of cssp.rs are verified above that in unit csspder. KNOWN to be false in one case: yasna 0.3.2 panics with an arithmetic overflow in debug builds on an 8-byte length of usize::MAX (`30 88 ff*8`; known_findings.json observation, defects/c07_yasna_length_overflow.rs)"
 PROPERTIES.update({
     "C01": dict(
         scope="cssp_connect (real body): the credentials message is built and written only at a point where the unsealed server reply equals, as little-endian integers, the subject public key of the certificate of THIS link plus one "
